@@ -170,37 +170,51 @@ func c06SynRun(c c06SynCase) (*eng.Fail, bool) {
 // after each attempt every adjacent pair that satisfies the antecedent must swap forth and back.
 func c06SynTour(c c06SynCase) (*eng.Fail, bool) {
 	al := synAlphabet()
+	// index len(al): a computed jump, which ends its block (every instruction of the block is
+	// control-dependent on it)
+	al = append(al, synIns{"jump to jt", []expr.Effect{expr.NewRegStore(expr.NewRegLoad("jt", 8), expr.IPKey, 8)}, 0})
 	var pins []parser.Instruction
 	addr := uint64(0x1000)
 	byAddr := map[model.Addr]int{}
+	nblocks := 1
 	for _, k := range c.Seq {
+		if k < 0 { // a gap in the address space: what follows is another block
+			addr += 0x100
+			nblocks++
+			c.Txt = append(c.Txt, "<gap>")
+			continue
+		}
 		byAddr[model.Addr(addr)] = k
 		pins = append(pins, parser.Instruction{Type: al[k].Typ, Addr: model.Addr(addr), Bytes: make([]byte, []int{4, 2, 6}[k%3]), Effects: al[k].Effs, Details: synDetails{al[k].Name}})
 		addr += uint64([]int{4, 2, 6}[k%3])
 		c.Txt = append(c.Txt, al[k].Name)
 	}
 	code, err := deps.NewCode(0x1000, pins)
-	if err != nil || code.Len() != 1 {
+	if err != nil || code.Len() != nblocks {
 		return nil, false
 	}
-	blk := code.Index(0)
-	n := blk.Num()
 	swapAll := func(after string) *eng.Fail {
-		for k := 0; k+1 < n; k++ {
-			ins := blk.Instructions()
-			a, b := al[byAddr[ins[k].OrigAddr()]], al[byAddr[ins[k+1].OrigAddr()]]
-			if !independent(factsOfEffects(a.Effs, a.Typ), factsOfEffects(b.Effs, b.Typ)) {
-				continue
-			}
-			for _, mv := range [][2]int{{k, k + 1}, {k + 1, k}} {
-				var merr error
-				p, stack := eng.Catch(func() { merr = blk.Move(mv[0], mv[1]) })
-				if p != nil {
-					return &eng.Fail{Sig: "Move panic " + eng.PanicSite(stack), What: fmt.Sprintf("Move(%d,%d) %s panics: %v", mv[0], mv[1], after, p), Case: c}
+		for bi := 0; bi < code.Len(); bi++ {
+			blk := code.Index(bi)
+			for k := 0; k+1 < blk.Num(); k++ {
+				ins := blk.Instructions()
+				a, b := al[byAddr[ins[k].OrigAddr()]], al[byAddr[ins[k+1].OrigAddr()]]
+				if byAddr[ins[k+1].OrigAddr()] == len(al)-1 {
+					continue // the later one is the block's terminating jump
 				}
-				if merr != nil {
-					return &eng.Fail{Sig: "independent synthetic pair not swappable (after a history)",
-						What: fmt.Sprintf("%s: %q and %q at positions %d,%d are independent, yet Move(%d,%d) is refused: %v", after, a.Name, b.Name, k, k+1, mv[0], mv[1], merr), Case: c}
+				if !independent(factsOfEffects(a.Effs, a.Typ), factsOfEffects(b.Effs, b.Typ)) {
+					continue
+				}
+				for _, mv := range [][2]int{{k, k + 1}, {k + 1, k}} {
+					var merr error
+					p, stack := eng.Catch(func() { merr = blk.Move(mv[0], mv[1]) })
+					if p != nil {
+						return &eng.Fail{Sig: "Move panic " + eng.PanicSite(stack), What: fmt.Sprintf("Move(%d,%d) in block %d %s panics: %v", mv[0], mv[1], bi, after, p), Case: c}
+					}
+					if merr != nil {
+						return &eng.Fail{Sig: "independent synthetic pair not swappable (after a history)",
+							What: fmt.Sprintf("%s: %q and %q at positions %d,%d of block %d are independent, yet Move(%d,%d) is refused: %v", after, a.Name, b.Name, k, k+1, bi, mv[0], mv[1], merr), Case: c}
+					}
 				}
 			}
 		}
@@ -210,6 +224,29 @@ func c06SynTour(c c06SynCase) (*eng.Fail, bool) {
 	if f := swapAll(hist); f != nil {
 		return f, true
 	}
+	if nblocks > 1 {
+		// block moves in between: every ordered pair of block positions, twice over
+		for round := 0; round < 2; round++ {
+			for i := 0; i < nblocks; i++ {
+				for j := 0; j < nblocks; j++ {
+					if i == j {
+						continue
+					}
+					var merr error
+					if p, stack := eng.Catch(func() { merr = code.Move(i, j) }); p != nil {
+						return &eng.Fail{Sig: "Move panic " + eng.PanicSite(stack), What: fmt.Sprintf("block move (%d,%d) after %s panics: %v", i, j, hist, p), Case: c}, true
+					}
+					hist += fmt.Sprintf("; block move (%d,%d) %v", i, j, map[bool]string{true: "accepted", false: "refused"}[merr == nil])
+					if f := swapAll("after " + hist); f != nil {
+						return f, true
+					}
+				}
+			}
+		}
+		return nil, true
+	}
+	blk := code.Index(0)
+	n := blk.Num()
 	for i := 0; i < n; i++ {
 		for j := 0; j < n; j++ {
 			if i == j {
@@ -320,7 +357,7 @@ func c06Alphabet() []uint32 {
 
 func init() {
 	checks["C06"] = eng.Check{
-		Rule:        "every ordered pair over a 40-word alphabet covering every instruction class (ALU reg/imm, lui/auipc, W-ops, loads, stores, AMOs, LR/SC, fence, fence.i, ecall, ebreak, CSR, pseudo-jumps, real jumps, x0 destinations) placed adjacent with prefix in {none, nop, a writer of x1} and suffix in {none, nop nop, terminating jump + pad}; plus every adjacent pair of the C05 block space; plus every ordered pair over 21 SYNTHETIC instructions with effect shapes the RISC-V front end never produces (two stores into one / two memory spaces, two register writes, loads from two spaces, load+store of one space, effect-free typed instructions, registers named like memory spaces and memory spaces named like registers) in 4 contexts. An independent walker over the front end's lifted effects decides the property's literal antecedent (no shared register incl. ip, no shared memory space with a writer, neither syscall/CPU-state, no memory-ordering instruction paired with an access or another ordering instruction, later one not the terminating jump); then Move(i,i+1) and Move(i+1,i), each on a fresh real code, must be accepted. History pass: on ONE code model of every synthetic sequence of 3 instructions (quick: a third) every move (i,j) is attempted in a fixed order, and after each attempt (accepted or refused) every adjacent pair satisfying the antecedent must swap forth and back. Non-trivial = pair satisfying the antecedent.",
+		Rule:        "every ordered pair over a 40-word alphabet covering every instruction class (ALU reg/imm, lui/auipc, W-ops, loads, stores, AMOs, LR/SC, fence, fence.i, ecall, ebreak, CSR, pseudo-jumps, real jumps, x0 destinations) placed adjacent with prefix in {none, nop, a writer of x1} and suffix in {none, nop nop, terminating jump + pad}; plus every adjacent pair of the C05 block space; plus every ordered pair over 21 SYNTHETIC instructions with effect shapes the RISC-V front end never produces (two stores into one / two memory spaces, two register writes, loads from two spaces, load+store of one space, effect-free typed instructions, registers named like memory spaces and memory spaces named like registers) in 4 contexts. An independent walker over the front end's lifted effects decides the property's literal antecedent (no shared register incl. ip, no shared memory space with a writer, neither syscall/CPU-state, no memory-ordering instruction paired with an access or another ordering instruction, later one not the terminating jump); then Move(i,i+1) and Move(i+1,i), each on a fresh real code, must be accepted. History pass: on ONE code model of every synthetic sequence of 3 instructions (quick: a third) every move (i,j) is attempted in a fixed order, and after each attempt (accepted or refused) every adjacent pair satisfying the antecedent must swap forth and back; the same on codes of 2 and 3 blocks (separated by address gaps, with and without a computed jump ending each block) where every ordered pair of block positions is moved, twice over, with the swap requirement after each block move. Non-trivial = pair satisfying the antecedent.",
 		Assumptions: []string{"instruction facts are recomputed from riscv.Parse effects, not read from deps"},
 		Run: func(r *eng.Run) {
 			alpha := c06Alphabet()
@@ -402,6 +439,24 @@ func init() {
 					if f != nil {
 						r.Report(f)
 						r.Outcome(f.Sig)
+					}
+				}
+			})
+			// ... and with block moves in between: two and three blocks separated by address gaps,
+			// every ordered pair of synthetic instructions as the second block
+			r.Par(na, func(i int) {
+				for j := 0; j < na; j++ {
+					for _, seq := range [][]int{{0, 1, -1, i, j}, {i, j, -1, 3, 6, 2}, {2, -1, i, j, -1, 7, 15},
+						{0, 1, na, -1, i, j, na}, {i, j, 15, na, -1, 3, 6, 2, na}, {2, na, -1, 11, i, j, na, -1, 7, 15}} {
+						f, in := c06SynTour(c06SynCase{Seq: seq, Tour: true})
+						r.Eval(1)
+						if in {
+							r.Nontrivial(1)
+						}
+						if f != nil {
+							r.Report(f)
+							r.Outcome(f.Sig)
+						}
 					}
 				}
 			})
